@@ -521,33 +521,30 @@ func (dc *ClientDnsConnection) SendSetEncodingUpstream(timeout time.Duration) (*
 
 func (dc *ClientDnsConnection) SetEncodingUpstream() error {
 	log.Infof("Switching upstream to codec to %v", dc.Serializer.Upstream.Encoder.Name())
+	e := enc.Base32Encoding
+retry:
 	for i := 0; !dc.Closed() && i < 5; i++ {
 		resp, err := dc.SendSetEncodingUpstream(secs(i + 1))
 		if err == smux.ErrTimeout {
 			log.Debugf("No response, retrying...")
 			continue
 		} else if err != nil {
-			e := enc.Base32Encoding
 			log.Warnf("Communication error, reverting to upstream encoder %v: %v", e, err)
-			dc.Serializer.Upstream.Encoder = e
-			return nil
+			break retry
 		} else if resp.Err != nil {
-			e := enc.Base32Encoding
 			log.WithError(resp.Err).Warnf("Server error, reverting to upstream encoder %v: %v", e, resp.Err)
-			dc.Serializer.Upstream.Encoder = e
-			return nil
+			break retry
 		} else {
 			log.Debugf("Upstream coded switched to %v", dc.Serializer.Upstream.Encoder)
 			return nil
 		}
 	}
 
-	e := enc.Base32Encoding
-	log.Debugf("No reply from server on codec switch. Falling back to upstream codec: %v", e)
+	log.Debugf("Codec switch not confirmed by the server. Falling back to upstream codec: %v", e)
 	dc.Serializer.Upstream.Encoder = e
 
-	// The server may have switched all the same (its answers may be what got lost): the fallback has to be
-	// agreed on as well, or the two ends decode each other's data with different codecs.
+	// The server may have switched all the same (an earlier request may have reached it and only the answer got
+	// lost): the fallback has to be agreed on as well, or the two ends decode each other's data with different codecs.
 	for i := 0; !dc.Closed() && i < 5; i++ {
 		if resp, err := dc.SendSetEncodingUpstream(secs(i + 1)); err == nil && resp.Err == nil {
 			log.Debugf("Upstream coded switched to %v", e)
